@@ -191,7 +191,19 @@ func checkSig0(c sigCase) (err error) {
 		return nil // not packable (e.g. over 64 KiB): outside the domain
 	}
 	sigRRLen := 1 + 10 + 18 + len(signerAsL.Wire()) + sigLen(c.Alg, priv)
-	if len(packed)+sigRRLen > 65535 {
+	if n := len(packed) + sigRRLen; n > 65535 {
+		// no DNS message is that long. Slightly oversize cases are still handed to Sign: it must refuse
+		// (whatever Sign reports as signed has to be a message that can be sent and verifies)
+		if n <= 65600 && !c.RefSign {
+			sig := &dns.SIG{}
+			sig.KeyTag, sig.SignerName, sig.Algorithm = tag, c.SignerAs, c.Alg
+			sig.Inception, sig.Expiration = incep, expir
+			out, serr := sig.Sign(ref.RandCheckedSigner{Inner: ref.DetSigner{Key: priv}}, c.Msg.Build())
+			pbt.Note(append([]byte("oversize|"), packed[:64]...), true, "signed-size>65535", fmt.Sprintf("alg=%d", c.Alg))
+			if serr == nil && len(out) > 65535 {
+				return pbt.Errf("SIG.Sign reported success for a signed message of %d octets (packed message %d + SIG record %d): not a DNS message any more", len(out), len(packed), sigRRLen)
+			}
+		}
 		return nil
 	}
 	window := map[bool]string{true: "window=valid", false: "window=past"}[inWindow]
@@ -306,6 +318,17 @@ func checkSig0(c sigCase) (err error) {
 			return pbt.Errf("SIG RDATA %+v does not carry the requested algorithm/times/key tag/signer", ps)
 		}
 	}
+	if !c.RefSign {
+		// a signer that fails: Sign must say so - whatever Sign reports as signed has to verify
+		fs := &dns.SIG{}
+		fs.KeyTag, fs.SignerName, fs.Algorithm = tag, c.SignerAs, c.Alg
+		fs.Inception, fs.Expiration = incep, expir
+		if fout, ferr := fs.Sign(ref.FailingSigner{Pub: pub}, c.Msg.Build()); ferr == nil {
+			if v := ref.Sig0Verify(fout, signerL, c.Alg, pub, now); !v.OK && inWindow {
+				return pbt.Errf("SIG.Sign reported success although the crypto.Signer returned an error; its output (%d octets) does not verify: %s", len(fout), v.Why)
+			}
+		}
+	}
 	// decode with the library, as a receiver would
 	rm := new(dns.Msg)
 	if uerr := rm.Unpack(out); uerr != nil {
@@ -400,6 +423,17 @@ func checkSig0(c sigCase) (err error) {
 		ok2, _ := keyRR(c.Signer, c.Alg, ref.PublicOf(opriv))
 		if rsig.Verify(ok2, out) == nil {
 			return pbt.Errf("SIG.Verify accepted the message with a different key of the same owner")
+		}
+	}
+	// the right key with octets missing or added (the fixed-size decoders must look at the length)
+	for _, alt := range []struct {
+		name string
+		oct  []byte
+	}{{"without its last octet", keyOct[:len(keyOct)-1]}, {"with one more octet", append(append([]byte(nil), keyOct...), 1)}, {"doubled", append(append([]byte(nil), keyOct...), keyOct...)}, {"empty", nil}} {
+		ak, _ := keyRR(c.Signer, c.Alg, pub)
+		ak.PublicKey = base64.StdEncoding.EncodeToString(alt.oct)
+		if rsig.Verify(ak, out) == nil {
+			return pbt.Errf("SIG.Verify accepted the message with the KEY's public key %s (%d instead of %d octets)", alt.name, len(alt.oct), len(keyOct))
 		}
 	}
 	// right key under another owner name
@@ -806,6 +840,46 @@ func genWindow(t *rapid.T) (int64, int64) {
 	}
 }
 
+// sizeToLimit adds an opaque record sized so that packed message + SIG record come to exactly
+// target octets (65534 / 65535: the longest DNS messages; 65536 / 65537: just too long, Sign must
+// refuse).
+func sizeToLimit(t *rapid.T, c *sigCase, target int) {
+	// the signed message exactly as long as a DNS message can be (or one octet less): an opaque
+	// record is sized so that packed message + SIG record come to 65535 / 65534 octets
+	c.RefSign, c.Msg.Compress = false, false
+	if c.IncOff > 0 || c.ExpOff < 0 {
+		c.IncOff, c.ExpOff = -3600, 3600
+	}
+	if len(c.Msg.Extra) > 200 {
+		c.Msg.Extra = c.Msg.Extra[:3]
+	}
+	c.Msg.Answer = append(c.Msg.Answer, msgspec.Rec{Kind: "UNK", Owner: 0, Class: 1, TTL: 5, Num: 3})
+	if priv, e1 := privFor(*c); e1 == nil {
+		if sl, e2 := labelsOf(c.SignerAs); e2 == nil {
+			if p0, e3 := c.Msg.Build().Pack(); e3 == nil {
+				if need := target - (1 + 10 + 18 + len(sl.Wire()) + sigLen(c.Alg, priv)) - len(p0); need >= 0 && need <= 65500 {
+					d := make([]byte, need)
+					for i := range d {
+						d[i] = byte(i * 7)
+					}
+					c.Msg.Answer[len(c.Msg.Answer)-1].Data = d
+				}
+			}
+		}
+	}
+}
+
+// genSig0AtLimit draws only cases whose signed length is at the 65535-octet limit or just beyond.
+func genSig0AtLimit(t *rapid.T) sigCase {
+	c := genSig0(t)
+	c.Msg.Answer, c.Msg.Ns = nil, nil
+	if len(c.Msg.Extra) > 3 {
+		c.Msg.Extra = c.Msg.Extra[:3]
+	}
+	sizeToLimit(t, &c, rapid.SampledFrom([]int{65534, 65535, 65536, 65537}).Draw(t, "limit"))
+	return c
+}
+
 func genSig0(t *rapid.T) sigCase {
 	c := sigCase{}
 	c.Msg = msgspec.Gen(t, msgspec.Opts{ManyExtra: true, Big: true, Huge: true})
@@ -852,31 +926,8 @@ func genSig0(t *rapid.T) sigCase {
 		c.Muts = append(c.Muts, Mut{Op: rapid.SampledFrom([]string{"set", "set", "ins", "del", "count", "ptr"}).Draw(t, "op"),
 			Pos: rapid.IntRange(0, 1<<20).Draw(t, "mpos"), Val: rapid.SliceOfN(rapid.Byte(), 1, 4).Draw(t, "mval")})
 	}
-	if rapid.IntRange(0, 39).Draw(t, "atmax") == 0 {
-		// the signed message exactly as long as a DNS message can be (or one octet less): an opaque
-		// record is sized so that packed message + SIG record come to 65535 / 65534 octets
-		target := rapid.SampledFrom([]int{65535, 65535, 65534}).Draw(t, "target")
-		c.RefSign, c.Msg.Compress = false, false
-		if c.IncOff > 0 || c.ExpOff < 0 {
-			c.IncOff, c.ExpOff = -3600, 3600
-		}
-		if len(c.Msg.Extra) > 200 {
-			c.Msg.Extra = c.Msg.Extra[:3]
-		}
-		c.Msg.Answer = append(c.Msg.Answer, msgspec.Rec{Kind: "UNK", Owner: 0, Class: 1, TTL: 5, Num: 3})
-		if priv, e1 := privFor(c); e1 == nil {
-			if sl, e2 := labelsOf(c.SignerAs); e2 == nil {
-				if p0, e3 := c.Msg.Build().Pack(); e3 == nil {
-					if need := target - (1 + 10 + 18 + len(sl.Wire()) + sigLen(c.Alg, priv)) - len(p0); need >= 0 && need <= 65000 {
-						d := make([]byte, need)
-						for i := range d {
-							d[i] = byte(i * 7)
-						}
-						c.Msg.Answer[len(c.Msg.Answer)-1].Data = d
-					}
-				}
-			}
-		}
+	if rapid.IntRange(0, 11).Draw(t, "atmax") == 0 {
+		sizeToLimit(t, &c, rapid.SampledFrom([]int{65535, 65535, 65534, 65536, 65536, 65537}).Draw(t, "target"))
 	}
 	excludeKnown(&c)
 	return c
@@ -914,6 +965,7 @@ func excludeKnown(c *sigCase) {
 
 func init() {
 	pbt.Register(pbt.Sub[sigCase]{Name: "sign-verify-tamper", Weight: 1, Gen: genSig0, Check: checkSig0})
+	pbt.Register(pbt.Sub[sigCase]{Name: "sizes-at-the-limit", Weight: 0.05, Gen: genSig0AtLimit, Check: checkSig0})
 
 	plain := func(compress bool, extras int) msgspec.Spec {
 		s := msgspec.Spec{ID: 0x1234, RD: true, Names: []string{"www.example.org.", "example.org.", "ns.example.org."}, Compress: compress,
